@@ -115,6 +115,41 @@ def prefix_loop_shapes(rng, n):
     return out
 
 
+def open_token_shapes(rng, n):
+    """lexers whose tokens are open-ended (ended by lookahead) and adjacent: the byte that ends one token starts the next one, so the yield
+    for a token is due on a byte that is not consumed yet. Alphabet a b 0 1 C and space, classes disjoint per clause"""
+    out = []
+    for _ in range(n):
+        letters = [97, 98, 48, 49, 67, 32]
+        rng.shuffle(letters)
+        k = rng.choice([2, 3])
+        groups = [letters[i::k] for i in range(k)]
+        clauses = []
+        for i, g in enumerate(groups):
+            items = [("ch", c) for c in g]
+            form = rng.random()
+            if form < 0.55:
+                tree = ("op", ("set", items, False), "+")
+            elif form < 0.75:
+                tree = ("seq", [("ch", g[0]), ("op", ("set", items, False), "*")])
+            elif form < 0.9 and i == k - 1:
+                others = [("ch", c) for gg in groups[:i] for c in gg]
+                tree = ("op", ("set", others, True), "+")        # inverted class: everything the other clauses do not start with
+            else:
+                tree = ("seq", [("op", ("set", items, False), "+"), ("op", ("ch", g[-1]), "?")])
+            body = [N("yield", code="Y%d" % i)]
+            if rng.random() < 0.25:
+                body.insert(0, N("assign", var="m", e=N("num", v=i + 1, text=str(i + 1))))
+            clauses.append(N("clause", preds=[N("rx", tree=tree, binary=False)], body=body, prio=None))
+        greedy = rng.random() < 0.6
+        if rng.random() < 0.3:
+            clauses.append(N("clause", preds=["else"], body=[N("yield", code="Y3"), N("match", p=N("rx", tree=("any",), binary=False))], prio=None))
+        case = N("case", clauses=clauses, greedy=greedy)
+        outs = [N("out", name="m", typ="int", signed=None, width=None, default=0)]
+        out.append(N("prog", outs=outs, hooks=[], fcodes=[], ycodes=["Y0", "Y1", "Y2", "Y3"], macros=[], body=[N("loop", label=None, body=[case])], args=["-fyield-support"]))
+    return out
+
+
 def run(ctx: Ctx):
     rng = ctx.rng
     quick = ctx.quick
@@ -141,6 +176,7 @@ def run(ctx: Ctx):
             k = (r.exc_type or r.status) + ": " + (r.exc_msg or "")[:50].split("\n")[0]
             rejected[k] = rejected.get(k, 0) + 1
     c01.add_shapes(ctx, rng, pool, prefix_loop_shapes(rng, 16 if quick else 200), "prefix_loop_shapes_accepted")
+    c01.add_shapes(ctx, rng, pool, open_token_shapes(rng, 12 if quick else 150), "open_token_shapes_accepted", levels=("-O0", "-O2", "-O3", "-O3"))
     ctx.cov.update({"case_programs_generated": tried, "case_programs_accepted": len(pool)})
     ctx.extra["accepted_shapes"] = kinds
     ctx.extra["rejections"] = rejected
